@@ -103,3 +103,46 @@ func TypedGet(v interface{}) (res interface{}, err error) {
 	}
 	return out[0].Interface(), nil
 }
+
+// TypedSet calls the typed setter SetValue(x) of a characteristic object with v converted to the parameter
+// type (int, float64, bool, string, []byte). ok is false when the object has no such setter or v does not fit.
+func TypedSet(obj interface{}, v interface{}) (ok bool, err error) {
+	defer func() {
+		if p := recover(); p != nil {
+			err = fmt.Errorf("typed setter panics: %v", p)
+		}
+	}()
+	m := reflect.ValueOf(obj).MethodByName("SetValue")
+	if !m.IsValid() || m.Type().NumIn() != 1 {
+		return false, nil
+	}
+	pt := m.Type().In(0)
+	rv := reflect.ValueOf(v)
+	if !rv.IsValid() || !rv.Type().ConvertibleTo(pt) {
+		return false, nil
+	}
+	if rv.Kind() == reflect.String && pt.Kind() != reflect.String && !(pt.Kind() == reflect.Slice) {
+		return false, nil
+	}
+	if pt.Kind() == reflect.String && rv.Kind() != reflect.String {
+		return false, nil
+	}
+	m.Call([]reflect.Value{rv.Convert(pt)})
+	return true, nil
+}
+
+// TypedOnRemoteUpdate registers fn through the typed OnValueRemoteUpdate(func(T)) of a characteristic object;
+// fn receives the typed argument as an interface value.
+func TypedOnRemoteUpdate(obj interface{}, fn func(interface{})) bool {
+	m := reflect.ValueOf(obj).MethodByName("OnValueRemoteUpdate")
+	if !m.IsValid() || m.Type().NumIn() != 1 || m.Type().In(0).Kind() != reflect.Func || m.Type().In(0).NumIn() != 1 {
+		return false
+	}
+	ft := m.Type().In(0)
+	f := reflect.MakeFunc(ft, func(args []reflect.Value) []reflect.Value {
+		fn(args[0].Interface())
+		return nil
+	})
+	m.Call([]reflect.Value{f})
+	return true
+}
